@@ -10,7 +10,6 @@ import c05_calls as CC
 import c05_rings as CR
 
 PROP = 'C05'
-CFGS = ('rel', 'w32')
 NMAX = {'quick': 9, 'thorough': 20}
 
 # ------------------------------------------------------------------------------------------ sweeps of the word helpers
@@ -77,7 +76,7 @@ def replay_sweep(rec):
 
 def sweeps(chk):
     cases = []
-    for cfg in CFGS:
+    for cfg in CC.CFGS:
         for bits in (16, 32, 64):
             for fn in range(len(UNARY)):
                 cases.append((cfg, 'unary', bits, fn))
@@ -88,7 +87,7 @@ def sweeps(chk):
     for c, r in zip(cases, res):
         cfg, kind, bits, fn = c
         if kind == 'cmp':
-            bits = 64 if cfg == 'rel' else 32
+            bits = CC.wbits(cfg)
         name = sweep_name(kind, bits, fn)
         rec = {'cfg': cfg, 'kind': 'sweep', 'sweep': kind, 'bits': bits, 'f': fn}
         if 'evals' not in r:
@@ -109,14 +108,15 @@ def sweeps(chk):
 def make_cells(tier, fns=None):
     N = NMAX[tier]
     cells = []
-    for cfg in CFGS:
-        W = 64 if cfg == 'rel' else 32
+    for cfg in CC.CFGS:
+        W = CC.wbits(cfg)
         for name in sorted(CC.CAT):
             if fns and name not in fns:
                 continue
             ent = CC.CAT[name]
             for sh in ent.shapes(N, W):
-                for ed in ent.editions():
+                # the second edition is <name>_fast in regular builds and <name>_safe in SAFE_FAST builds (safe.h)
+                for ed in (ent.editions() if 'fast' not in cfg else tuple(e.replace('_fast', '_safe') for e in ent.editions())):
                     for alias in ('',) + ent.alias:
                         if alias and not CC.alias_ok(ent, sh, W, alias):
                             continue
@@ -182,7 +182,7 @@ def catalogue(chk, tier, fns=None):
         if ncr[k] > 4:
             chk.cap('%s%s [%s]: more than 4 crashing cells, cell %s %s not split' % (c['fn'], c['ed'], c['cfg'], c['sh'], c['alias'])); continue
         ent = CC.CAT[c['fn']]
-        W = 64 if c['cfg'] == 'rel' else 32
+        W = CC.wbits(c['cfg'])
         n = len(CC.gen_inputs(ent, c['sh'], W, c['alias'], tier)[0])
         for lo in range(0, n, 64):
             chunks.append(dict(c, subset=list(range(lo, min(n, lo + 64)))))
@@ -210,7 +210,7 @@ def catalogue(chk, tier, fns=None):
             if 'harness_error' in r:
                 raise RuntimeError('harness error: %s' % r['harness_error'])
             ent = CC.CAT[c['fn']]
-            W = 64 if c['cfg'] == 'rel' else 32
+            W = CC.wbits(c['cfg'])
             v = CC.gen_inputs(ent, c['sh'], W, c['alias'], tier)[0][c['subset'][0]]
             hang = r.get('crash') == 'timeout'
             what = 'does not return (timeout)' if hang else 'crashes (%s)' % r.get('crash')
